@@ -445,3 +445,33 @@ Theorem C10_resolve_example :
   = Some ([("u1", "AND2"); ("u2", "BUF1"); ("i0", FORK); ("i1", FORK); ("o0", FORK); ("u1~Y", FORK)]%string, 5, io rex_host) /\
   option_map (fun r => List.length (snd r)) (resolve_trace rex_lib (nodes rex_host) rex_host) = Some 2.
 Proof. exact resolve_example_sem. Qed.
+
+(** * 8. eliminate_1to1_forks and forks WITHOUT driver (D38, fixed in circuit.py by
+    `if len(n.ins) < 1 or n.ins[0] is None: continue`).  substitute / resolve_tlib_cells leave, for an unconnected instance input
+    whose implementation input has several readers, a stub fork without input line; once the clean-up below an unconnected output
+    has removed all but one of its readers it is a fork outside the interface with exactly one reader and no driver.  The loop
+    read `n.ins[0]` of such a fork and raised IndexError (AttributeError for ins[0] = None, after the node and its output line had
+    already been removed), so the composition "resolve, then eliminate forks" failed.  Since the fix such forks are inside
+    well-formed use ([elim_ok_b] no longer excludes them: C09_eliminate, C10_eliminate_function, C10_eliminate_solution_view,
+    C10_eliminate_s_names[_perm], C10_eliminate_order_kept and [pre _ Eliminate1to1] in the history theorems of C09 hold for them)
+    and the loop leaves them alone.  Witness (an 18-step well-formed history, followed by two eliminate calls): nodes
+    [i, f, s, t, g, w, o, j], i -> f -> g -> w -> o, the forks s (ins = []) and t (ins = [None]: its input line was removed) drive
+    pins 1 and 2 of g.  The call succeeds, removes f and w, keeps s and t with their pins, keeps s_names, is idempotent in canonical
+    form -- and the loop before the fix ([eliminate_1to1_old]) raised on this circuit. *)
+Theorem C10_eliminate_driverless_fork_kept :
+  run_hist CircuitElimOrder.stub_history = Some CircuitElimOrder.stub_c /\
+  hist_pre empty (CircuitElimOrder.stub_history ++ [Eliminate1to1; Eliminate1to1]) = true /\
+  CInv CircuitElimOrder.stub_c /\ IoLive CircuitElimOrder.stub_c /\ elim_ok_b CircuitElimOrder.stub_c = true /\
+  ins_of CircuitElimOrder.stub_c 2 = [] /\ ins_of CircuitElimOrder.stub_c 3 = [None] /\
+  CircuitElimOrder.driverless_1to1 CircuitElimOrder.stub_c 2 = true /\ CircuitElimOrder.driverless_1to1 CircuitElimOrder.stub_c 3 = true /\
+  eliminate_1to1 CircuitElimOrder.stub_c = Some CircuitElimOrder.stub_c' /\ CInv CircuitElimOrder.stub_c' /\ IoLive CircuitElimOrder.stub_c' /\
+  map (name_of CircuitElimOrder.stub_c) (nodes CircuitElimOrder.stub_c) = ["i"; "f"; "s"; "t"; "g"; "w"; "o"; "j"]%string /\
+  map (name_of CircuitElimOrder.stub_c') (nodes CircuitElimOrder.stub_c') = ["i"; "j"; "s"; "t"; "g"; "o"]%string /\
+  CircuitElimOrder.driverless_1to1 CircuitElimOrder.stub_c' 2 = true /\ CircuitElimOrder.driverless_1to1 CircuitElimOrder.stub_c' 3 = true /\
+  ins_of CircuitElimOrder.stub_c' 2 = ins_of CircuitElimOrder.stub_c 2 /\ outs_of CircuitElimOrder.stub_c' 2 = outs_of CircuitElimOrder.stub_c 2 /\
+  ins_of CircuitElimOrder.stub_c' 3 = ins_of CircuitElimOrder.stub_c 3 /\ outs_of CircuitElimOrder.stub_c' 3 = outs_of CircuitElimOrder.stub_c 3 /\
+  List.length (lines CircuitElimOrder.stub_c) = 6 /\ List.length (lines CircuitElimOrder.stub_c') = 4 /\
+  s_names CircuitElimOrder.stub_c' = s_names CircuitElimOrder.stub_c /\
+  option_map canon (eliminate_1to1 CircuitElimOrder.stub_c') = Some (canon CircuitElimOrder.stub_c') /\
+  eliminate_1to1_old CircuitElimOrder.stub_c = None.
+Proof. exact CircuitElimOrder.driverless_fork_kept. Qed.
